@@ -116,6 +116,50 @@ func TestVerifC05(t *testing.T) {
 			probes = append(probes, probe{c, tp[c.fnNew]})
 		}
 	}
+	// shapes of self reference outside the family's signature (generic functions, methods, method
+	// values, closures calling the enclosing function ...): indexed under the first name of the
+	// pool, scanned under every name (the first one = identical source)
+	shN, shTotal := vh.Shard()
+	for si, shp := range progfam.SelfShapes {
+		if shTotal > 1 && si%shTotal != shN {
+			continue
+		}
+		for ni, name := range progfam.SelfNames {
+			text := progfam.RenderShape(shp, name)
+			sub := filepath.Join(dir, fmt.Sprintf("shape-%s-%s", shp.ID, name))
+			os.MkdirAll(sub, 0o755)
+			path := filepath.Join(sub, "shape.go")
+			os.WriteFile(path, []byte(text), 0o644)
+			tp, err := c05Topologies(path, text)
+			if err != nil {
+				r.Fail("shape %s as %s: %v", shp.ID, name, err)
+				return
+			}
+			n := 0
+			for short, t := range tp {
+				k := progfam.ShapeEntryKey(short, name)
+				if k == "" {
+					continue
+				}
+				n++
+				bk := "shape:" + shp.ID + ":" + k
+				if ni == 0 {
+					baseTopo[bk] = t
+				}
+				if baseTopo[bk] == nil {
+					r.Fail("shape %s: entry %s exists under the name %s but not under %s", shp.ID, k, name, progfam.SelfNames[0])
+					return
+				}
+				c := &pfCase{base: progfam.Base{ID: "shape-" + shp.ID}, key: fmt.Sprintf("shape-%s/%s/named-%s@0", shp.ID, k, name), fnOld: bk, fnNew: bk,
+					v: progfam.Variant{Op: "R3-rename-function", Desc: fmt.Sprintf("entry %s of the shape, the function named %s instead of %s", k, name, progfam.SelfNames[0]), Src: text}}
+				probes = append(probes, probe{c, t})
+			}
+			if n == 0 {
+				r.Fail("shape %s as %s: no entry of the function found", shp.ID, name)
+				return
+			}
+		}
+	}
 	dbn := 0
 	for _, p := range probes {
 		c := p.c
@@ -126,6 +170,9 @@ func TestVerifC05(t *testing.T) {
 		}
 		sig := detection.IndexFunction(bt, "FAM_"+c.fnOld, "d", "HIGH", "malware")
 		sig.ID = "SIG-" + c.base.ID
+		if strings.HasPrefix(c.fnOld, "shape:") {
+			sig.ID = "SIG-" + c.fnOld
+		}
 		decoys := []detection.Signature{}
 		d1 := sig
 		d1.ID, d1.Name, d1.EntropyScore = "DECOY-samehash-far-entropy", "decoy1", sig.EntropyScore+1.0
